@@ -555,6 +555,8 @@ def run(F, rep, tier):
     rep.floor("C17-R3", "pattern traversal arms with sub-pattern fields", n, 3)
     from rules.loopshape import c17_state_set_from_arms
     c17_state_set_from_arms(F, rep)
+    from rules.pattern_arity import length_admissibility
+    length_admissibility(F, rep, "C17-R8")
 
 
 def unbounded_in(cg, item):
